@@ -13,6 +13,7 @@ import z3
 
 SOLVER_TIMEOUT_MS = 60_000
 FEAS_TIMEOUT_MS = 2_000
+MAX_DECISIONS = 400
 
 
 class VCSignal(BaseException):
@@ -575,6 +576,9 @@ class Ctx:
             return True
         if z3.is_false(cond):
             return False
+        if self.pos >= MAX_DECISIONS:
+            raise Unsupported(f"more than {MAX_DECISIONS} symbolic decisions on one path (a loop without contract that does not terminate "
+                              "on symbolic data?)")
         if self.pos < len(self.decisions):
             d = self.decisions[self.pos]
         else:
